@@ -10,7 +10,7 @@ from corr_C13 import run_case, case_lit, flat, cells_str, tuple_op, shrink, IMPO
 
 # crash points of write_head: k = number of completed file-system steps (create temp, write, close, rename);
 # for k == 2 the buffered data may have reached the file not at all / partly / completely
-CRASH_POINTS = [(0, 0), (1, 0), (2, 0), (2, 1), (2, 2), (3, 0), (4, 0)]
+CRASH_POINTS = [(0, 0), (1, 0), (2, 0), (2, 1), (2, 2), (3, 0), (4, 0), (5, 0)]   # (5, 0): at a removal of the head file, if any
 
 def build(base, crash_at, how, hdr, ar):
     """base: string over w (write) r (read) R (read_block) s (save) d (delete the oldest file);
